@@ -35,6 +35,7 @@ type Opts struct {
 	Slice       map[string]uint64
 	Peers       []string // cpiface.peers: control-plane nodes the agent itself associates with at start-up
 	PeerNames   []string // set on the loaded configuration through the Go API (the file loader only admits IP literals)
+	Race        bool   // run the agent child from the binary built with -race (VERIF_AGENT_BIN)
 	P4          bool   // UP4 datapath against the harness' own P4Runtime server
 	P4Slice     int
 	P4DefaultTC int
@@ -86,6 +87,9 @@ func New(o Opts) (*Sys, error) {
 		return nil, err
 	}
 	s.self = self
+	if alt := os.Getenv("VERIF_AGENT_BIN"); alt != "" && o.Race {
+		s.self = alt // the same program built with the race detector
+	}
 	work := os.Getenv("VERIF_WORK")
 	if work == "" {
 		work = os.TempDir()
@@ -242,7 +246,7 @@ func (s *Sys) Start() error {
 		return err
 	}
 	cmd := exec.Command(s.self, "agentd", confPath, s.Bess.Addr)
-	cmd.Env = append(os.Environ(), "GOMEMLIMIT=2GiB")
+	cmd.Env = append(os.Environ(), "GOMEMLIMIT=2GiB", "GORACE=halt_on_error=0")
 	if s.Opts.PeerNames != nil {
 		cmd.Env = append(cmd.Env, "VERIF_PEERS="+strings.Join(s.Opts.PeerNames, ","))
 	}
@@ -380,6 +384,35 @@ func (s *Sys) CrashInfo() string {
 		msg = msg[:160]
 	}
 	return strings.ReplaceAll(msg+" @ "+frame, " ", "_")
+}
+
+// Races extracts the data-race reports of the child (built with -race): for each, the functions of the repository involved.
+func (s *Sys) Races() []string {
+	txt := s.Stderr()
+	var out []string
+	for _, blk := range strings.Split(txt, "WARNING: DATA RACE")[1:] {
+		if i := strings.Index(blk, "=================="); i >= 0 {
+			blk = blk[:i]
+		}
+		var fns []string
+		for _, l := range strings.Split(blk, "\n") {
+			l = strings.TrimSpace(l)
+			if j := strings.Index(l, "upf-epc/pfcpiface."); j >= 0 && !strings.Contains(l, "Verif") {
+				f := l[j+len("upf-epc/pfcpiface."):]
+				if k := strings.Index(f, "("); k > 0 && strings.HasSuffix(f, ")") && !strings.HasPrefix(f, "(") {
+					f = f[:k]
+				}
+				if len(fns) == 0 || fns[len(fns)-1] != f {
+					fns = append(fns, f)
+				}
+			}
+		}
+		if len(fns) > 4 {
+			fns = fns[:4]
+		}
+		out = append(out, strings.Join(fns, "<-"))
+	}
+	return out
 }
 
 func (s *Sys) Stderr() string {
